@@ -34,6 +34,7 @@ import (
 	"sync/atomic"
 	"time"
 
+	"golang.zx2c4.com/wireguard/conn"
 	"golang.zx2c4.com/wireguard/device"
 
 	"wgv/cosim"
@@ -170,12 +171,18 @@ func runSeq(evs []Ev, bindBatch int, long bool) ([]Ev, []Obs, bool) {
 	pk := cosim.NoisePK(p.Pub)
 	var lastInit []byte
 	// fault injection at the bind: one transport Send / one initiation Send fails when armed
-	armT, armI := -1, false
+	armT, armI, armG := -1, false, false
 	var firedT, firedI bool
 	var refused [][]byte
 	w.Bind.SendErrFn = func(bufs [][]byte, to netip.AddrPort) (int, error) {
 		if len(bufs) == 0 {
 			return 0, nil
+		}
+		if armG && bufs[0][0] == ref.TypeTransport {
+			// like StdNetBind when the kernel refuses UDP GSO: it switches GSO off, re-sends the batch itself and
+			// reports ErrUDPGSODisabled with a nil RetryErr: everything is on the wire exactly once
+			armG = false
+			return len(bufs), conn.ErrUDPGSODisabled{}
 		}
 		if armT >= 0 && bufs[0][0] == ref.TypeTransport {
 			k := armT
@@ -261,10 +268,11 @@ func runSeq(evs []Ev, bindBatch int, long bool) ([]Ev, []Obs, bool) {
 			}
 			out = w.Take()
 			out.Sent = append(acc, out.Sent...)
-		case "tun":
+		case "tun", "tungso":
 			if e.N < 1 {
 				continue
 			}
+			armG = e.K == "tungso"
 			pkts := make([][]byte, e.N)
 			o.First = nextID
 			for i := range pkts {
@@ -414,6 +422,8 @@ func genSeq(r *rand.Rand) ([]Ev, string) {
 			}
 		case x < 84:
 			evs = append(evs, Ev{K: "refdata"})
+		case x < 86:
+			evs = append(evs, Ev{K: "tungso", N: 1 + r.Intn(40)}, Ev{K: "tun", N: 1 + r.Intn(8)})
 		case x < 88:
 			n := 1 + r.Intn(40)
 			evs = append(evs, Ev{K: "tunerr", N: n, Kf: r.Intn(n + 1)}, Ev{K: "tun", N: 1 + r.Intn(8)})
@@ -453,6 +463,10 @@ func directed() [][]Ev {
 			pre = []Ev{{K: "tun", N: 1}, {K: "ans"}, {K: "refinit"}, {K: "refdata"}, {K: "allow"}}
 		}
 		out = append(out, append(pre, Ev{K: "set", V: v}, Ev{K: "tun", N: n}, Ev{K: "tun", N: 1 + i%3}, Ev{K: "ans"}, Ev{K: "tun", N: 2}))
+		if i%8 == 1 {
+			// the bind falls back from UDP GSO on this batch (reports ErrUDPGSODisabled after re-sending it itself)
+			out = append(out, []Ev{{K: "tun", N: 1}, {K: "ans"}, {K: "allow"}, {K: "set", V: v}, {K: "tungso", N: n}, {K: "tun", N: 2}, {K: "tungso", N: 1}, {K: "ans"}, {K: "tungso", N: 5}})
+		}
 		if i%8 == 5 {
 			// the far side initiated and the device answered, but the confirmation never came ("next" pending); later the
 			// device's own key runs out mid-batch, it initiates, the response arrives: the new session must become
@@ -466,6 +480,14 @@ func directed() [][]Ev {
 			k := (i / 8) % (n + 1)
 			out = append(out, []Ev{{K: "tun", N: 1}, {K: "ans"}, {K: "allow"}, {K: "set", V: v}, {K: "tunerr", N: n, Kf: k}, {K: "tun", N: 3}, {K: "tun", N: 2},
 				{K: "allow"}, {K: "tunierr", N: 2}, {K: "allow"}, {K: "tun", N: 1}, {K: "ans"}, {K: "tunerr", N: 4, Kf: 0}, {K: "tun", N: 4}})
+		}
+	}
+	// a REFUSED initiation exactly when the counter reaches 2^60 (the attempt consumes the 5 s spacing although nothing is
+	// seen on the wire); then more traffic past 2^60 within the spacing, then after it
+	for _, pre := range [][]Ev{{{K: "tun", N: 1}, {K: "ans"}, {K: "allow"}}, {{K: "refinit"}, {K: "refdata"}, {K: "allow"}}} {
+		for _, d := range []uint64{1, 2, 29} {
+			out = append(out, append(append([]Ev{}, pre...), Ev{K: "set", V: Rekey - d}, Ev{K: "tunierr", N: int(d) + 1}, Ev{K: "tun", N: 1}, Ev{K: "tun", N: 2},
+				Ev{K: "allow"}, Ev{K: "tun", N: 1}, Ev{K: "ans"}, Ev{K: "tun", N: 1}))
 		}
 	}
 	// several containers staged, the first of which ends EXACTLY at the last counter: the next one is wholly
@@ -557,6 +579,9 @@ func runStress(c StressCfg) Case {
 		w.Bind.SendErrFn = func(bufs [][]byte, to netip.AddrPort) (int, error) {
 			if len(bufs) > 0 && bufs[0][0] == ref.TypeTransport && rng.Intn(c.SendErr) == 0 {
 				sendErrs.Add(1)
+				if rng.Intn(3) == 0 {
+					return len(bufs), conn.ErrUDPGSODisabled{} // GSO fallback: all sent, by the bind itself
+				}
 				return rng.Intn(len(bufs) + 1), errInjected
 			}
 			return 0, nil
@@ -794,7 +819,8 @@ func runStress(c StressCfg) Case {
 	// crossing worlds: a goroutine keeps every fresh key a few counters below the limit (raising only) and lifts the
 	// 5 s spacing whenever a key is exhausted, so that the limit is crossed hundreds of times per second while the
 	// flushers run; no quiescence is needed for raising a counter
-	var crossings atomic.Int64
+	var crossings, crossExpires atomic.Int64
+	var crossHung atomic.Bool
 	var crossStop atomic.Bool
 	var crossWg sync.WaitGroup
 	if c.Cross {
@@ -802,7 +828,28 @@ func runStress(c StressCfg) Case {
 		go func() {
 			defer crossWg.Done()
 			shifted := make([]uint32, len(peers)) // remote index of the exhausted key the spacing was last lifted for
+			lastExp := time.Now()
 			for !crossStop.Load() {
+				if c.Expire && time.Since(lastExp) > 150*time.Millisecond {
+					// private-key change = ExpireCurrentKeypairs: Store(Reject) into the live counters, here while keys sit at
+					// their limit and flushers are clamping
+					lastExp = time.Now()
+					np := ref.NewPrivate()
+					done := make(chan error, 1)
+					go func() { done <- w.Dev.IpcSet("private_key=" + hex.EncodeToString(np[:]) + "\n") }()
+					select {
+					case <-done:
+						npub := ref.PubOf(np)
+						devPub.Store(&npub)
+						crossExpires.Add(1)
+					case <-time.After(5 * time.Second):
+						crossHung.Store(true)
+						return
+					}
+					for i := range shifted {
+						shifted[i] = 0
+					}
+				}
 				for i, p := range peers {
 					pk := cosim.NoisePK(p.Pub)
 					st := w.Dev.VerifPeer(pk)
@@ -955,6 +1002,10 @@ func runStress(c StressCfg) Case {
 	info["out_of_order_neighbours"] = interleaved
 	info["send_errors_injected"] = sendErrs.Load()
 	info["counter_raised_to_limit"] = crossings.Load()
+	info["private_key_changes_in_crossing"] = crossExpires.Load()
+	if crossHung.Load() {
+		hung++
+	}
 	info["transports"] = nTransport
 	info["keys"] = len(keyOrder)
 	info["initiations_answered"] = nInit
@@ -1125,7 +1176,7 @@ func gallinaSeq(c Case) string {
 		switch e.K {
 		case "set":
 			fmt.Fprintf(&b, "eSet %s", hilo(e.V))
-		case "tun":
+		case "tun", "tungso": // the slice model knows no difference: a GSO fallback is not a failed send
 			b.WriteString("eTun [")
 			for k := 0; k < e.N; k++ {
 				if k > 0 {
